@@ -13,8 +13,15 @@ import (
 // It exploits the key, and in particular IndexZYX, ordering so that checks
 // across a volume can be done quickly.
 type Iterator struct {
-	spans   []dvid.Span
-	curSpan int32
+	spans     []dvid.Span
+	curSpan   int32
+	blockSize dvid.Point3d
+}
+
+// BlockSize returns the size of the blocks the spans of the ROI are made of.  InsideFast
+// compares block coordinates, so it only makes sense for blocks of this size.
+func (it *Iterator) BlockSize() dvid.Point3d {
+	return it.blockSize
 }
 
 func NewIterator(roiName dvid.InstanceName, versionID dvid.VersionID, b dvid.Bounder) (*Iterator, error) {
@@ -39,6 +46,7 @@ func NewIterator(roiName dvid.InstanceName, versionID dvid.VersionID, b dvid.Bou
 
 	ctx := datastore.NewVersionedCtx(data, versionID)
 	it := new(Iterator)
+	it.blockSize = data.BlockSize
 	it.spans, err = getSpans(ctx, minIndex, maxIndex)
 	return it, err
 }
